@@ -5,7 +5,8 @@ NS = "Hw.Props.C17."
 THEOREMS = [NS + t for t in """C17_refresh_validates C17_refresh_validates_history C17_refresh_validates_flags C17_load_validates
 C17_load_second_refresh_needed C17_valid_readers_write_free C17_readers_schedule_independent
 C17_readers_state_constant C17_unrefreshed_race_exists C17_unrefreshed_memattr_write
-C17_registry_inv C17_registry_quiescent""".split()]
+C17_registry_inv C17_registry_quiescent C17_entry_refcount C17_only_init_destroy_change C17_init_dup_adopt_take_one
+C17_history_refcount C17_stray_fini_breaks""".split()]
 CHECK_MODULES = ["Hw.Props.C17"]
 TRUSTED = ["tools/gen_conc.py (extraction of the hwloc_components_init/fini critical sections into the instruction IR, of the guarded statement "
            "sequences of hwloc_topology_refresh and of the tail of hwloc_topology_load, of the topology flag values and of the table of "
@@ -15,6 +16,12 @@ TRUSTED = ["tools/gen_conc.py (extraction of the hwloc_components_init/fini crit
            "the footprint table `Hw.Conc.events` (which entry point touches which lazy cache) is hand-written from the C and tied to "
            "the real code by engine `readonly` on the generated topologies only; harness/consult.h decides what 'every consulting "
            "entry point' means (35 entries, about 140 public functions)",
+           "the table `Hw.Conc.Reg.calls` (which public entry point of topology.c / topology-xml.c / shmem.c performs which "
+           "hwloc_components_init / _fini calls on which path: success, rejected arguments, TOO_COMPLEX diff entries, unreadable / "
+           "malformed input) is hand-written from the C and tied to the real code by the `reg` ops of engine `readonly`: "
+           "hwloc_components_users and the registry pointer are read after every entry point and compared with "
+           "`Reg.runHist` over the generated IR; paths that need a failing malloc (adopt failing after its init) are in the "
+           "table but not reached by the harness",
            "pthread_mutex_lock/unlock provide mutual exclusion and the hardware/compiler memory model gives sequential consistency "
            "to race-free programs; the observe/commit split is the model's granularity of interleaving",
            "mprotect(PROT_READ) + SIGSEGV reports every store into the copied topology (stores to memory outside the copy - "
@@ -24,13 +31,17 @@ ASSUMPTIONS = ["every function-local static environment cache has been initialis
                "load: with NO_DISTANCES / NO_MEMATTRS the discovery adds no distances / attribute values, so the caches that the tail of "
                "load skips under these flags are valid when it starts (FlaggedOffValid)",
                "reader threads only call the consulting API; the caller-provided buffers are thread-private",
+               "C17_history_refcount: the caller only destroys topologies it owns (`liveAfter`), and calls the entry points of "
+               "one history sequentially (their interleaving across threads is C17_registry_inv)",
                "each thread of the independent-topology part calls hwloc_topology_init/destroy in pairs (one registry reference per "
                "live topology), no plugins (HWLOC_HAVE_PLUGINS off in this build)"]
 MODELLED = ("modelled: the lazy-cache protocol of hwloc/distances.c (hwloc_internal_distances_refresh[_one], invalidate_cached_objs, "
             "hwloc__distances_get), hwloc/memattrs.c (hwloc__imattr_refresh call sites of get_value / get_targets / get_initiators / "
             "get_best_target / get_best_initiator, need_refresh, refresh), the tail of hwloc_topology_load and hwloc_topology_refresh "
             "(topology.c), the refresh call of the XML export entry points, and the reference-counted critical sections of "
-            "hwloc_components_init / hwloc_components_fini (components.c, translator); exercised on a read-only copy but not modelled: "
+            "hwloc_components_init / hwloc_components_fini (components.c, translator), and every public entry point that calls them "
+            "(hwloc_topology_init / _dup / _destroy, hwloc_topology_diff_load_xml[buffer] / _export_xml[buffer], "
+            "hwloc_shmem_topology_get_length / _write / _adopt) as the sequence of registry calls of each of its paths; exercised on a read-only copy but not modelled: "
             "the bodies of all traversal / printing / set / bitmap / cpukinds / export helpers (their absence of writes is observed, "
             "their results are opaque `content`); not covered: static env caches at cold start (F15), memory-model effects below "
             "'no conflicting access', OS-specific backends running concurrently during load (support run only)")
